@@ -261,6 +261,23 @@ def contextToApp (dataType : Nat) (t : Tag) : Except Err Tag :=
     | _ => .error .valueRange
   else .ok { cls := .app, num := dataType, lvt := t.data.length, data := t.data }
 
+/-- `Tag._app_tag_class[tagNumber]` (13..15 are `None`) -/
+def PrimTy.ofAppTag : Nat → Option PrimTy
+  | 0 => some .null | 1 => some .bool | 2 => some .unsigned | 3 => some .integer
+  | 4 => some .real | 5 => some .double | 6 => some .octets | 7 => some .charstr
+  | 8 => some .bits | 9 => some .enum | 10 => some .date | 11 => some .time
+  | 12 => some .oid | _ => none
+
+/-- `Tag.app_to_object()`: `ValueError` unless application class; the class is
+    looked up in the 16-entry list `_app_tag_class` (`IndexError` beyond it),
+    `None` for the reserved numbers, else `klass(tag)` -/
+def appToObject (t : Tag) : Except Err (Option PrimVal) :=
+  if t.cls ≠ .app then .error .other
+  else if t.num ≥ 16 then .error .other
+  else match PrimTy.ofAppTag t.num with
+    | none => .ok none
+    | some ty => (decodePrim ty t).map some
+
 /-! ## on the wire, in either tagging mode -/
 
 inductive Mode
